@@ -83,6 +83,12 @@ def _case(rng, spec, m, n, perms, dtype=None):
         kind = "zerorow"
     if kind == "wellcond" and m > n:
         kind = "gauss"
+    if name == "Krum" and rng.random() < 0.55:
+        # more than 25 rows whose norms dwarf their mutual distances: distance computations that go through
+        # |x|^2 + |y|^2 - 2<x,y> (torch.cdist's default beyond 25 rows) lose the distances, the scores tie artificially and
+        # the selection depends on the row order
+        m, n, kind = rng.choice([26, 27, 30]), rng.choice([5, 7, 8]), "offset"
+        perms = 6
     mat = {"kind": kind, "m": m, "n": n, "seed": rng.randrange(10**6), "dtype": dtype,
            "scale": 10.0 ** rng.choice([0.0, 0.0, rng.uniform(-3, 3), rng.uniform(-3, 6)])}
     if name in ("UPGrad", "DualProj", "CAGrad"):
@@ -95,6 +101,9 @@ def _case(rng, spec, m, n, perms, dtype=None):
         mat["decades"] = rng.choice([2, 6, 12])
     if kind == "wellcond":
         mat["cond"] = rng.choice([2.0, 10.0, 100.0])
+    if kind == "offset":
+        mat["ratio"] = 1e4 if dtype == "float32" else 1e8
+        mat["scale"] = 1.0
     if perms != "all":
         perms = [rng.sample(range(m), m) for _ in range(perms)]
     return {"agg": spec, "mat": mat, "perms": perms, "seed": rng.randrange(10**6)}
